@@ -11,7 +11,9 @@
 (*         events                                                          *)
 (* events: Call(tick, st, closing)   Poll(tick, st, closing)  - one per    *)
 (*         sleep of the loop, logged after the environment moved           *)
-(*         Return(tick, shape, val, st, closing)                           *)
+(*         Return(tick, shape, val, st, alt, closing)   alt[e]: further     *)
+(*           final states notified for e after its first one (a cancel     *)
+(*           raced the execution): such a task may hold any of them        *)
 (*         Abort(tick)  - the rig unwound a call that was still polling    *)
 (*         Raise(tick)  - the real method raised                           *)
 (* The monitor is total: it never blocks, failing clauses go to errs.      *)
@@ -90,8 +92,8 @@ Step ==
                     \cup E(NotEarlyOK(dueLo, e.tick, e.closing), "C15.NotEarly")
                     \cup E(ShapeOK(T.kind, e.shape), "C15.TruthfulShape")
                     \cup (IF e.shape \in {"scalar", "list"}
-                          THEN E(\/ ValuesOK(e.val, cur, Aw)
-                                 \/ T.kind = "all" /\ ValuesOK(e.val, cur, NonFinal0),
+                          THEN E(\/ ValuesAltSeqOK(e.val, cur, e.alt, Aw)
+                                 \/ T.kind = "all" /\ ValuesAltSeqOK(e.val, cur, e.alt, NonFinal0),
                                  "C15.TruthfulValue")
                           ELSE {})
                /\ UNCHANGED <<tk, st0, cur, everHi, everLo, dueHi, dueLo>>
